@@ -251,7 +251,47 @@ func runEOF(c *core.Check) {
 	}
 }
 
+// state that survives from one declaration to the next (nesting counters, scratch buffers, caches) shows only after many
+// declarations: each unit repeated N times around the usual limits, then a probe rule whose values sit on the paths that
+// depend on normalised tokens (a leading zero that is not a zero, lengths next to keywords, colours, lists)
+var manyUnits = []string{"a{z-index:1}", "a{order:2}", "a{margin:0}", "a{color:red}", "a{--x:1}", "a{width:calc(1px + 2px)}", "a{grid-row:1}", "a{background:url(x.png)}", "@media x{a{b:c}}", "a{font:12px a}", "a{counter-reset:c 1}", "a{transform:rotate(0deg)}", "a{flex:1 1 0%}", "a{box-shadow:0 0 0 red}"}
+var manyProbes = []string{".t{flex-basis:0.5em;flex:1 1 0.25rem}", ".t{box-shadow:1px 1px 2px 0.5px red}", ".t{background-position:0.5% 10px}", ".t{margin:0.5px 0.0px;color:#ff0000}", ".t{width:calc( 1px + 0.50px );z-index:010}", ".t{font:italic 0.5em/1.50 a , b}"}
+
+func runAfterMany(c *core.Check) {
+	name := "structure/after-many-declarations"
+	counts := []int{99, 100, 101, 257}
+	if c.Thorough() {
+		counts = []int{1, 31, 32, 33, 63, 64, 65, 99, 100, 101, 127, 128, 129, 255, 256, 257, 1000, 1025}
+	}
+	st := c.Family(name)
+	st.Bound = fmt.Sprintf("%d repeated units x %d repetition counts x %d probe rules (as rules of one sheet, and as declarations of one rule)", len(manyUnits), len(counts), len(manyProbes))
+	k := uint64(0)
+	for _, u := range manyUnits {
+		for _, n := range counts {
+			for _, pr := range manyProbes {
+				in := strings.Repeat(u, n) + pr
+				cases, nt := checkSheet(c, name, in, k)
+				c.Count(cases)
+				c.AddFamily(name, cases, nt)
+				k++
+				if strings.HasPrefix(u, "a{") {
+					// the same declarations inside one rule
+					d := strings.TrimSuffix(strings.TrimPrefix(u, "a{"), "}")
+					in = "a{" + strings.Repeat(d+";", n) + strings.TrimSuffix(strings.TrimPrefix(pr, ".t{"), "}") + "}"
+					cases, nt = checkSheet(c, name, in, k)
+					c.Count(cases)
+					c.AddFamily(name, cases, nt)
+					k++
+				}
+			}
+		}
+	}
+}
+
 func runStructure(c *core.Check) {
+	if only("structure/after-many") {
+		runAfterMany(c)
+	}
 	if only("structure/rule-lists") {
 		runRuleLists(c)
 	}
